@@ -44,6 +44,7 @@ def run(ctx: RuleContext):
     m = ctx.model
     r = roles_for(m)
     ctx.sub(check_surface, ctx)
+    ctx.sub(check_docstring_truthiness, ctx)
     ctx.sub(check_write_set, ctx, r)
     ctx.sub(check_locations, ctx)
     ctx.sub(check_traversal, ctx)
@@ -67,7 +68,7 @@ def check_surface(ctx):
                 "return values of the visit methods replace / delete nodes", construct=f"class JaxtypingTransformer({', '.join(map(str, bases))})")
     else:
         ctx.ok("C10.1", c.qualname, "derives from ast.NodeVisitor (return values of nested visits are ignored; nothing can be deleted)")
-    visits = {n for n in c.methods if n.startswith("visit")}
+    visits = {n for n in c.methods if n.startswith("visit") or n == "generic_visit"}
     for v in sorted(visits - EXPECTED_VISITS):
         f = c.methods[v]
         if v in ("visit", "generic_visit"):
@@ -133,6 +134,27 @@ def _eval_skip(test, cls, var):
             v = cls.get("module") == rr.value
             return v if isinstance(test.ops[0], ast.Eq) else not v
     raise AnalysisError(f"C10.2: unrecognised atom `{norm(test)}` in the import-placement predicate")
+
+
+def check_docstring_truthiness(ctx):
+    """ast.get_docstring() returns Optional[str]: using it in a boolean context conflates an
+    empty docstring with no docstring, so the import lands before an empty docstring."""
+    m = ctx.model
+    c = transformer(ctx)
+    for name, f in sorted(c.methods.items()):
+        for n in ast.walk(f.node):
+            tests = []
+            if isinstance(n, (ast.If, ast.While, ast.IfExp)):
+                tests.append(n.test)
+            if isinstance(n, ast.BoolOp):
+                tests += n.values
+            if isinstance(n, ast.UnaryOp) and isinstance(n.op, ast.Not):
+                tests.append(n.operand)
+            for t in tests:
+                if isinstance(t, ast.Call) and norm(t.func) in ("ast.get_docstring", "get_docstring"):
+                    ctx.bad("C10.2", f, t, "the docstring is detected by the truthiness of ast.get_docstring(...): an empty (or whitespace-only) docstring is "
+                            "treated as absent, so `import jaxtyping` is inserted before it (the module's __doc__ changes; a following "
+                            "`from __future__ import` becomes a SyntaxError)")
 
 
 def check_write_set(ctx, r):
